@@ -28,11 +28,12 @@ class DDDIPrimitiveConfig(UDSScannerConfig):
 
 
 def parse_definitions(value: str | tuple[int, ...], expected_len: int) -> tuple[int, ...]:
-    if isinstance(value, tuple):
+    # A stored configuration (META.json, database) contains the definitions as lists
+    if isinstance(value, tuple | list):
         if len(value) != expected_len:
             raise ValueError(f"Need exactly {expected_len} values for each definition")
 
-        return value
+        return tuple(value)
 
     values = value.split(":")
 
